@@ -141,6 +141,37 @@ def c_rules(tu):
                                    "(s ^= [1, 1] leaves s unchanged instead of "
                                    "adding 1). Decide against the original "
                                    "contents first, then apply", path=[]))
+            # ---- INPLACE-REPLACE ------------------------------------------------
+            # &= rebuilds the container from the kept keys; the rebuild has to
+            # happen on every path that reports success (the number of hits
+            # says nothing about the number of distinct keys kept)
+            v = slots.get("nb_inplace_and")
+            if v and v[0] == "fn":
+                from ..cfg import CFG
+                fn = tu.func(v[1])
+                cfg = CFG(fn)
+                dom = cfg.dominators()
+                params = [k.n for k in fn.kids if k.k == "ParmVarDecl"]
+                rebuild = [nd for nd in cfg.live_nodes() if nd.e is not None and any(
+                    x.k == "CallExpr" and callee(x)[0] == "fn" and callee(x)[1] in (
+                        "_Set_update", "_TreeSet_update", "update_from_seq") and len(x.kids) > 1
+                    and path(x.kids[1]) == params[0] for x in nd.e.walk())]
+                succ = [nd for nd in cfg.live_nodes() if nd.e is not None and any(
+                    x.k == "BinaryOperator" and x.v == "=" and path(x.kids[0]) == "result"
+                    and path(x.kids[1]) == params[0] for x in nd.e.walk())]
+                stats["inplace_and_results"] = stats.get("inplace_and_results", 0) + len(succ)
+                if not succ or not rebuild:
+                    raise AnalysisError("anchor vanished: rebuild / success result of %s" % v[1])
+                for sn in succ:
+                    if not any(r.id in dom[sn.id] for r in rebuild):
+                        findings.append(dict(
+                            rule="INPLACE-REPLACE", function=v[1], file=fn.f, line=sn.line,
+                            construct="%s reports success on a path that skips the rebuild" % v[1],
+                            detail="`s &= other` returns self without having "
+                                   "replaced the contents by the kept keys on "
+                                   "this path; whether anything has to go "
+                                   "cannot be told from counts (the operand "
+                                   "may repeat elements)", path=[]))
     # ---- FRESH-ONLY ----------------------------------------------------------------
     for name, fn in tu.funcs.items():
         if fn.f not in SETOP_FILES:
